@@ -310,11 +310,16 @@ func getThresholdMatching(typ core.DutyType, sigs []core.ParSignedData, threshol
 		sigsByMsgRoot[root] = append(sigsByMsgRoot[root], sig)
 	}
 
+	// Only the group joined by the latest signature (the last one) can have just reached the threshold;
+	// a group that reached it earlier was already returned and must not be returned again.
+	lastRoot, err := sigs[len(sigs)-1].MessageRoot()
+	if err != nil {
+		return nil, false, err
+	}
+
 	// Return true if we have "threshold" number of signatures.
-	for _, set := range sigsByMsgRoot {
-		if len(set) == threshold {
-			return set, true, nil
-		}
+	if set := sigsByMsgRoot[lastRoot]; len(set) == threshold {
+		return set, true, nil
 	}
 
 	return nil, false, nil
